@@ -4681,9 +4681,6 @@ where
           }
           _ => Some(format!("expected {}, got {}", u, s)),
         },
-        token::Value::BYTE(token::ByteValue::UTF8(b)) if s.as_bytes() == b.as_ref() => None,
-        token::Value::BYTE(token::ByteValue::B16(b)) if s.as_bytes() == b.as_ref() => None,
-        token::Value::BYTE(token::ByteValue::B64(b)) if s.as_bytes() == b.as_ref() => None,
         _ => Some(format!("expected {}, got \"{}\"", value, s)),
       },
       Value::Bytes(b) => match value {
